@@ -162,8 +162,56 @@ def eval_probefail(case):
     return mkres(case, nt=True, classes=['probefail', 'failed:' + failed, 'fault:%s' % (case['fault'] if isinstance(case['fault'], str) else case['fault'][0]), 'pos:%d' % keys.index(failed)], fails=fails)
 
 
+def eval_seq(case):
+    """Several servers in one invocation: what is reported about each server's keys equals what a fresh run reports
+    for that server alone (whose correctness the other families establish)."""
+    import os
+
+    def srv(m):
+        cspec, _, _ = ca_spec(m['ca'])
+        hk = {'ssh-ed25519': {'t': 'ed25519'}}
+        for k in m['keys']:
+            if k == ED_CERT:
+                hk[k] = {'t': 'cert', 'kind': ED_CERT, 'ca': cspec}
+            elif k in RSA_CERTS:
+                hk[k] = {'t': 'cert', 'kind': RSA_CERTS[0], 'bits': m['bits'], 'ca': cspec}
+            elif k in RSA_FAMILY:
+                for r in RSA_FAMILY:
+                    hk[r] = {'t': 'rsa', 'bits': m['bits']}
+        return fakenet.Server({'kex': ['curve25519-sha256'], 'key': m['keys'], 'hostkeys': hk})
+
+    def keyview(d):
+        return json.dumps({'key': d.get('key'), 'fingerprints': d.get('fingerprints')}, sort_keys=True)
+    solos = []
+    for m in case['members']:
+        net = fakenet.FakeNet()
+        net.add('h', 22, srv(m))
+        r = drive.run_cli(['-n', '-j', '--skip-rate-test', 'h'], net)
+        solos.append(keyview(json.loads(r.out)) if not r.exc and r.code in (0, 2, 3) else None)
+    net = fakenet.FakeNet()
+    hosts = ['s%d' % i for i in range(len(case['members']))]
+    for h, m in zip(hosts, case['members']):
+        net.add(h, 22, srv(m))
+    tf = drive.tmpfile('\n'.join(hosts) + '\n')
+    try:
+        r = drive.run_cli(['-n', '-j', '--skip-rate-test', '--threads', '1', '-T', tf], net)
+    finally:
+        os.unlink(tf)
+    fails = []
+    if r.exc or r.code not in (0, 2, 3) or None in solos:
+        fails.append([drive.crash_sig(r) if r.exc else 'no-report', r.brief()])
+    else:
+        docs = {d['target'].split(':')[0]: d for d in json.loads(r.out)}
+        for i, h in enumerate(hosts):
+            if keyview(docs[h]) != solos[i]:
+                fails.append(['host-key-details-depend-on-servers-audited-before', 'server %d of %r: %s; alone: %s' % (i + 1, case['members'], keyview(docs[h])[:300], solos[i][:300])])
+    return mkres(case, nt=True, classes=['seq', 'n:%d' % len(hosts)], fails=fails[:3])
+
+
 def eval_case(case):
     kind = case['kind']
+    if kind == 'seq':
+        return eval_seq(case)
     if kind == 'certfp':
         return eval_certfp(case)
     if kind == 'probefail':
@@ -389,6 +437,14 @@ def run(ctx):
             for bits in (2048, 4096):
                 for keys in ([RSA_CERTS[0], ED_CERT], [ED_CERT, RSA_CERTS[2], 'ssh-ed25519'], [RSA_CERTS[1], RSA_CERTS[0], ED_CERT]):
                     cases.append({'kind': 'twocerts', 'keys': keys, 'bits': bits, 'ca_rsa_cert': a, 'ca_ed_cert': b})
+    seq_cas = [{'t': 'ed25519'}, {'t': 'ecdsa', 'curve': 'nistp256'}, {'t': 'rsa', 'bits': 1024}, {'t': 'rsa', 'bits': 2048}, {'t': 'rsa', 'bits': 4096}]
+    seqs = []
+    for ck in (ED_CERT, RSA_CERTS[0], RSA_CERTS[2]):
+        for a, b in _it.permutations(seq_cas, 2):
+            seqs.append({'kind': 'seq', 'members': [{'keys': [ck, 'ssh-ed25519'], 'ca': a, 'bits': 3072}, {'keys': [ck], 'ca': b, 'bits': 3072}]})
+    for a, b, c in _it.permutations([1024, 2048, 3072, 4096], 3):
+        seqs.append({'kind': 'seq', 'members': [{'keys': ['rsa-sha2-512', 'ssh-rsa'], 'ca': seq_cas[0], 'bits': a}, {'keys': ['ssh-rsa'], 'ca': seq_cas[0], 'bits': b}, {'keys': [RSA_CERTS[0], 'rsa-sha2-256'], 'ca': seq_cas[2], 'bits': c}]})
+    cases += seqs
     pf = []
     pf_pool = ['ssh-ed25519', 'ssh-ed448', 'ecdsa-sha2-nistp256', ED_CERT, RSA_CERTS[0], 'rsa-sha2-512', 'ssh-rsa']
     for n in (2, 3):
